@@ -44,6 +44,9 @@ def gen_pipelines(rng, tier):
                 else:
                     fs = int([1, 3, 5, 7][rng.randint(4)])
                     overrides[i] = {"filter_method": fm, "filter_size": fs}
+                    if fm == "median_for_intervals" and rng.rand() < 0.5:
+                        # regularisation works on segments of its own (ambiguity kernel): the margin is still the filter's
+                        overrides[i].update(regularization=True, ambiguity_kernel_size=int([1, 5, 7][rng.randint(3)]))
                     d.update(method=fm, fsize=fs)
             elif k == "optimization" and rng.rand() < 0.5:
                 # an optional geometric prior computed by the plugin itself: no input is needed, the margin is the same
